@@ -7,7 +7,7 @@ import subprocess
 from . import refinterp as I
 from . import refnum as R
 from . import refparse as P
-from .common import strip_log_lines, HYEONG, WORK, MachineryError, Stats, Violation, collect, finish, hx, pmap, shim, child_setup
+from .common import strip_log_lines, HYEONG, WORK, MachineryError, Stats, Violation, collect, finish, hx, pmap, shim, child_setup, run_chunked
 from .eng_compile import emit, rustc
 
 U = ['\x00', 'a', '\x7f', '\x80', '\u07ff', '\u0800', '\ud7ff', '\ue000', '\uffff', '\U00010000', '\U0010ffff', '\n', '\r']
@@ -72,7 +72,7 @@ def build_all():
     return d, problems
 
 
-def run_cfg(d, name, cfg, data, timeout=120):
+def run_cfg(d, name, cfg, data, timeout=120, chunk=None):
     """cfg = ('interp', level) | ('compiled', level) -> (status, stdout, stderr)"""
     env = dict(os.environ)
     env['RUST_BACKTRACE'] = '0'
@@ -81,37 +81,43 @@ def run_cfg(d, name, cfg, data, timeout=120):
         args = [HYEONG, 'run', '-O%d' % cfg[1], '--color', 'never', os.path.join(d, name + '.hyeong')]
     else:
         args = [os.path.join(d, '%s_%d' % (name, cfg[1]))]
-    try:
-        p = subprocess.run(preexec_fn=child_setup, args=args, input=data, stdout=subprocess.PIPE, stderr=subprocess.PIPE, env=env, timeout=timeout)
-    except subprocess.TimeoutExpired:
-        return 'timeout', b'', b''
-    out = p.stdout
+    if chunk:
+        rc, raw, err = run_chunked(args, data, chunk, env=env, timeout=timeout)
+    else:
+        try:
+            p = subprocess.run(preexec_fn=child_setup, args=args, input=data, stdout=subprocess.PIPE, stderr=subprocess.PIPE, env=env, timeout=timeout)
+        except subprocess.TimeoutExpired:
+            return 'timeout', b'', b''
+        rc, raw, err = p.returncode, p.stdout, p.stderr
+    out = raw
     if cfg[0] == 'interp':
         out = strip_banner(out)
         if out is None:
-            out = b'<no banner>' + p.stdout
-    return p.returncode, out, p.stderr
+            out = b'<no banner>' + raw
+    return rc, out, err
 
 
 CONFIGS = [('interp', 0), ('interp', 1), ('interp', 2), ('compiled', 0), ('compiled', 1), ('compiled', 2)]
 
 
-def texts_task(d, texts, names):
+def texts_task(d, texts, names, chunks=(None,), configs=None):
     st = Stats()
     for text in texts:
         data = text.encode('utf-8')
         for name in names:
             exp = expected_output(name, text).encode('utf-8')
-            for cfg in CONFIGS:
-                rc, out, err = run_cfg(d, name, cfg, data)
+            for cfg, chunk in [(c, k) for c in (configs or CONFIGS) for k in chunks]:
+                rc, out, err = run_cfg(d, name, cfg, data, chunk=chunk)
                 st.inc('runs')
+                if chunk:
+                    st.inc('runs_chunked_stdin')
                 if len(st.samples) < 3 and len(text) <= 8:
                     st.sample({'program': name, 'config': '%s -O%d' % cfg, 'input': text, 'status': rc})
                 got, other = (err, out) if name == 'cat-stderr' else (out, err)
                 if rc != 0 or got != exp or other != b'':
                     short = text if len(text) <= 40 else text[:20] + '…[%d chars]' % len(text)
                     st.violate(Violation('C14', 'unicopy', 'copy:%s:%s%d' % (name, cfg[0], cfg[1]),
-                                         {'kind': 'unicopy', 'program': name, 'config': list(cfg), 'input': short,
+                                         {'kind': 'unicopy', 'program': name, 'config': list(cfg), 'input': short, 'chunk': chunk,
                                           'input_hex': data.hex() if len(data) <= 64 else None},
                                          'status 0, %d bytes: %r' % (len(exp), exp[:80]),
                                          'status %r, %d bytes: %r; other stream %r' % (rc, len(got), first_diff(exp, got), other[:80])))
@@ -185,6 +191,10 @@ def run_c14(tier):
         else:
             for i in range(0, len(texts), 40):
                 tasks.append((d, texts[i:i + 40], names_small if i < 2400 else ['cat', 'copy3']))
+        # the same input handed over 1, 2, 3 bytes per read (characters split between reads)
+        dl = [t for t in texts if len(t) <= 2] + bulk[:3]
+        for i in range(0, len(dl), 12):
+            tasks.append((d, dl[i:i + 12], ['cat', 'cat3'], (1, 2, 3), [('interp', 0), ('interp', 2), ('compiled', 0)]))
         collect(st, pmap(texts_task, tasks))
     cov = {
         'states': st.n.get('texts', 0),
@@ -201,7 +211,8 @@ def run_c14(tier):
                   'bulk_texts': 'boundary neighbourhoods, 70000-char unterminated line, long lines'
                                 + (', every scalar value U+0000..U+10FFFF (one text, 64 per line, one per line)' if tier != 'quick'
                                    else ', all scalars below U+3000 and around U+FFFF/U+10000/U+10FFFF'),
-                  'distinct_text_lengths': len(st.sets.get('lens', ()))},
+                  'distinct_text_lengths': len(st.sets.get('lens', ())),
+                  'runs_with_input_delivered_1_2_3_bytes_per_read': st.n.get('runs_chunked_stdin', 0)},
         'samples': [{'program': 'cat', 'input': 'a\\r\\n\\U0010FFFF'}, {'program': 'copy3', 'input': '\\x00\\n'},
                     {'program': 'cat', 'input': '(empty)'}],
     }
@@ -214,7 +225,7 @@ def replay(case):
     validate_programs()
     d, problems = build_all()
     text = bytes.fromhex(case['input_hex']).decode('utf-8')
-    st = texts_task(d, [text], [case['program']])
+    st = texts_task(d, [text], [case['program']], chunks=(case.get('chunk'),))
     for v in st.violations:
         if v.case['config'] == case['config']:
             return v.expected, v.observed
